@@ -15,7 +15,7 @@
 
    Statements are action records a = [op |-> ...]:
      print(s, nl)      PRINT s;  /  PRINT s      s a sequence of bytes incl. control codes
-     locate(r, c)      LOCATE r,c   (0 = argument omitted)
+     locate(r, c)      LOCATE r,c   (-1 = argument omitted)
      cls               CLS
      viewprint(t, b)   VIEW PRINT t TO b   (t = b = 0: VIEW PRINT without arguments)
      width(n, fresh, nw, nmode)   WIDTH n;  fresh = the video mode was (re)initialised,
@@ -169,8 +169,8 @@ PrintStmt(st, s, nl) ==
 
 -----------------------------------------------------------------------------
 (* statements *)
-LocRow(st, a) == IF a.r = 0 THEN st.row ELSE a.r
-LocCol(st, a) == IF a.c = 0 THEN st.col ELSE a.c
+LocRow(st, a) == IF a.r = -1 THEN st.row ELSE a.r
+LocCol(st, a) == IF a.c = -1 THEN st.col ELSE a.c
 
 Must(st, a) ==
     CASE a.op = "print" -> "ok"
@@ -192,7 +192,7 @@ Effect(st, a) ==
                c == LocCol(st, a)
                s0 == [st EXCEPT !.bra = (st.bra \/ r = st.h),
                                 \* the cursor goes to the REQUESTED cell: an explicit column ends an overflow
-                                !.ovf = IF a.c # 0 THEN FALSE ELSE st.ovf]
+                                !.ovf = IF a.c # -1 THEN FALSE ELSE st.ovf]
            IN  SetPos(s0, r, c, FALSE)
       [] a.op = "viewprint" ->
            IF a.t = 0 /\ a.b = 0 THEN [st EXCEPT !.top = 1, !.bot = st.h - 1, !.view = FALSE]
